@@ -70,6 +70,8 @@ class IdRecorder:
                 out = "g%dx%08x" % (serial, (((n + 1) * 2654435761) ^ self.salt) & 0xFFFFFFFF)
             except ValueError:
                 out = "g%dx%s" % (serial, value)
+        if self.flavour == "weird" and isinstance(value, str):
+            out = weird_id(serial, value)
         self.log.append((serial, out))
         if ctx is not None:
             ctx.draws.append(out)
@@ -77,6 +79,21 @@ class IdRecorder:
             if w is not None and w[2] is None and w[0] != w[1]:
                 w[2] = len(ctx.draws)  # the compile argument differs from its snapshot at this draw
         return out
+
+
+def weird_id(serial, value):
+    """Legal but unusual ids (the interface is get_next_id() -> str): leading zeros, blanks, a decimal point, hex,
+    an invisible character, a very long id and one EMPTY id - pairwise distinct per generator, so code that treats
+    ids as opaque strings is unaffected."""
+    try:
+        n = int(value)
+    except ValueError:
+        return "w%d:%s" % (serial, value)
+    if n == 1:
+        return "" if serial == 0 else "g%d-" % serial
+    k = n % 6
+    body = ("%05d" % n, " %d" % n, "%d.0" % n, "0x%x" % n, "%d\u200b" % n, ("ID%d" % n) * 8)[k]
+    return body if serial == 0 else "g%d/%s" % (serial, body)
 
 
 class SimRaw(io.RawIOBase):
